@@ -522,7 +522,7 @@ func TestVerifC12Isolation(t *testing.T) {
 	}
 	depth := 3
 	if ev.Thorough() {
-		depth = 4
+		depth = 5
 	}
 	res.Bounds["depth"] = depth
 	res.Rule = "BFS over operation histories through the real meta_op.go functions (put task, guarded state update, update checkpoint of one channel, mark collection dropped, delete task, put / remove task message) on the real etcd stores over fakeetcd and the real MySQL stores over fakesql; families: prefix-sharing ids (tasks t1/t10, collections 1/10/-10, channels c/c2) under one root; four tenants (roots r, r2, r_, rX) with equal ids on one backend; task deletion with a failure at each backend round trip; after every operation the full backend dump is diffed against the dump before: only records of the addressed (root, task[, collection]) may change, inside a checkpoint record only the addressed channel, dropped entries never, deletion all-or-nothing; reads (get, list, positions, task-message reload) return only records written under the same root and task; states deduplicated on the dump with stamps removed; non-trivial = histories with a fault or touching >= 2 records"
